@@ -14,6 +14,14 @@ length limits (tis_set.maxlength below / at / above every valid sub-path, path.m
 large / None: the seed is exactly one valid sub-path with both end points) and the [0-] weight
 vector for lambda_minus_one absent / negative / 0.0 / positive x every [0-] path type.
 
+Family "history" (hidden state): sequences of calls of the three functions in ONE interpreter on path
+objects that carry a path number and randomised generated / maxlen / status / time_origin / weights /
+weight (equal numbers and lengths but different orders, Path.copy() edited in place, reversed paths
+keeping the number, the same object after its orders were changed, a second set of paths numbered like
+the first), interleaved with different interface sets; every call is judged alone (statement oracle +
+model, both functions of the call's arguments); a failing call is reported with a minimal call sequence
+confirmed in a fresh interpreter, and the replay re-runs that sequence.
+
 Every call into the implementation goes through `call` / `Impl`: an exception, None, a value
 of the wrong shape, a sub-path that is not one of the valid sub-paths ... is an ANSWER of the
 implementation.  It is judged by the oracle and reported together with the input; it is never
@@ -21,9 +29,11 @@ an exception of this check.
 """
 import importlib.util  # noqa: F401
 import itertools
+import json
 import logging
 import math
 import numbers
+import random
 from fractions import Fraction
 
 import common
@@ -32,8 +42,8 @@ META = {
     "id": "C10",
     "level": "proof",
     "technique": "Coq: literal five-branch scan proved equal to an independent structurally recursive specification and to the declarative definition of valid sub-paths (simulation with loop invariant), corollaries by NoDup/Permutation; exhaustive small-scope lock-step of the extracted model (and extracted spec) vs the real tis.py functions",
-    "text": "Unbounded theorems (every order sequence, every left/right pair incl. left = right and left > right, every move assignment, every random number): the scan returns exactly the valid sub-paths (entry, exit, interior count) in order; weight = number of frames strictly inside valid sub-paths, positive iff such a frame exists, 0 for an empty region, invariant under time reversal (mirrored segments); compute_weight doubles exactly when the ends are on different outer sides and the move is wf/ss; calc_cv_vector has one entry per interface, last 0, 1/0 by lambda_k <= max for non-wf columns, (1,)/(0,) for [0-], and (1,) for every valid [0-] path whether lambda_minus_one is absent or any number, 0 included, for all four types L->L, L->R, R->L, R->R and whether or not lambda_0 is reached (C10_cv_vector_valid_minus_path; lambda_minus_one is an option in the model, never a truth value); segment k is chosen iff c_{k-1}/n < u <= c_k/n (interval length len_k/n), the choice is a valid sub-path and the seed consists of frames entry..exit inclusive: frame t of the returned segment is frame entry+t of the path for every path with len(path) <= path.maxlen (or path.maxlen None), no other length limit is read (C10_pick_seed_exact, C10_seed_whole), while a container limit below frames+2 returns a strict prefix without the exit frame (C10_seed_smaller_limit_refuted); p_swap = c1n*c2n/(c1o*c2o) (1 if a denominator is 0). The model is tied to /repo by running model, extracted spec and the real functions on the same inputs and by evaluating the statement on the implementation's outputs. The proportional-pick clause is additionally judged on paths holding >= 2 valid sub-paths of unequal frame counts (all such sequences of the small scope, systematic count pairs/triples, seeded random ones with decoys) over a fine grid of random numbers: multiples of 1/64, every boundary c_k/n with its float neighbours, interval midpoints, the boundaries j/m of a count-blind draw. The seed clause is additionally judged under length limits (family pick_length_limits): the implementation gets a full ensemble dictionary whose tis_set.maxlength lies below, at and above the number of phase points of every valid sub-path (also 1, 2, 3, len(path)+-1, 2000) and a path whose own maxlen is len(path), len(path)+1, 100000 or None, one random number per sub-path; the returned segment must be exactly one valid sub-path with both end points by frame identity and order and the weight the number of frames on valid sub-paths, whatever the limits. The [0-] clause is judged on every lambda_minus_one among absent (False), negative, 0.0, -0.0 and positive below lambda_0 (lambda_0 positive, 0.0 and negative) x every sequence over {below lambda_-1, = lambda_-1, between, = lambda_0, above lambda_0} up to length 4 (thorough 5) and every valid [0-] path one frame longer (family calc_cv_vector_minus). Any answer of the implementation (exception, None, wrong shape, a sub-path that is not a valid one, frames that are not the path's) is judged by the oracle and reported with the input (path, left/right, random number); it never stops the check.",
-    "note": "All theorems print 'Closed under the global context' (no axioms). Trusted: Coq kernel; extraction (ExtrOcamlBasic) + ocaml/util.ml + ocaml/c10_driver.ml (the 'has' command composes four compute_weight calls in the driver); the Python harness, its generators and its brute-force oracle. Floats: exhaustive cases use integer-valued orders; random real-valued cases are passed to the model as exact dyadic rationals scaled to integers; the float quotient sum_frames/n_frames (and c1n*c2n/(c1o*c2o)) is compared with the model's exact rational only at float neighbours of a boundary or at exactly representable boundaries, other exact-boundary values are counted as float_boundary_skipped. The uniform law of rgen.random() is assumed (the theorem gives the interval, hence probability len_k/n). Sub-path extraction assumes len(path) <= path.maxlen (Path.append refuses beyond maxlen, so no path built by the program is longer than its own maxlen); tis_set.maxlength is NOT assumed to bound anything (a loaded path, or a restart with a lowered maxlength, has sub-paths longer than it). Random numbers outside [0,1) (1.0, 1.5, the float above 1) are only compared with the model (its interval law is proved for every u): an exception of the implementation there is a correspondence report without failing input, inside [0,1) it is a failure of the statement with the input. Reports: at most 3 per kind of case, concrete failing inputs first.",
+    "text": "Unbounded theorems (every order sequence, every left/right pair incl. left = right and left > right, every move assignment, every random number): the scan returns exactly the valid sub-paths (entry, exit, interior count) in order; weight = number of frames strictly inside valid sub-paths, positive iff such a frame exists, 0 for an empty region, invariant under time reversal (mirrored segments); compute_weight doubles exactly when the ends are on different outer sides and the move is wf/ss; calc_cv_vector has one entry per interface, last 0, 1/0 by lambda_k <= max for non-wf columns, (1,)/(0,) for [0-], and (1,) for every valid [0-] path whether lambda_minus_one is absent or any number, 0 included, for all four types L->L, L->R, R->L, R->R and whether or not lambda_0 is reached (C10_cv_vector_valid_minus_path; lambda_minus_one is an option in the model, never a truth value); segment k is chosen iff c_{k-1}/n < u <= c_k/n (interval length len_k/n), the choice is a valid sub-path and the seed consists of frames entry..exit inclusive: frame t of the returned segment is frame entry+t of the path for every path with len(path) <= path.maxlen (or path.maxlen None), no other length limit is read (C10_pick_seed_exact, C10_seed_whole), while a container limit below frames+2 returns a strict prefix without the exit frame (C10_seed_smaller_limit_refuted); p_swap = c1n*c2n/(c1o*c2o) (1 if a denominator is 0). The model is tied to /repo by running model, extracted spec and the real functions on the same inputs and by evaluating the statement on the implementation's outputs. The proportional-pick clause is additionally judged on paths holding >= 2 valid sub-paths of unequal frame counts (all such sequences of the small scope, systematic count pairs/triples, seeded random ones with decoys) over a fine grid of random numbers: multiples of 1/64, every boundary c_k/n with its float neighbours, interval midpoints, the boundaries j/m of a count-blind draw. The seed clause is additionally judged under length limits (family pick_length_limits): the implementation gets a full ensemble dictionary whose tis_set.maxlength lies below, at and above the number of phase points of every valid sub-path (also 1, 2, 3, len(path)+-1, 2000) and a path whose own maxlen is len(path), len(path)+1, 100000 or None, one random number per sub-path; the returned segment must be exactly one valid sub-path with both end points by frame identity and order and the weight the number of frames on valid sub-paths, whatever the limits. The [0-] clause is judged on every lambda_minus_one among absent (False), negative, 0.0, -0.0 and positive below lambda_0 (lambda_0 positive, 0.0 and negative) x every sequence over {below lambda_-1, = lambda_-1, between, = lambda_0, above lambda_0} up to length 4 (thorough 5) and every valid [0-] path one frame longer (family calc_cv_vector_minus). Family history (hidden state): wirefence_weight_and_pick, compute_weight and calc_cv_vector are functions of the path's orders, the interfaces/moves and the one random number, so SEQUENCES of calls (with and without return_seg) are made in one interpreter process on path objects that carry a path_number: all ordered pairs of different order sequences of length 3 over the alphabet (thorough: also length 5 over {0,2,4}) as two paths with the same number, the same length and the same arguments, the second one a new object / a Path.copy() of the first edited in place / the same object with its orders changed; and seeded random sequences of the kinds two_setups (paths numbered b..b+k-1 are weighted, then a second and a third set with the same numbers and lengths: a second simulation set up in the same process), copy_edit (Path.copy keeps the number; the original is weighted again afterwards), reverse (Path.reverse, the result given the number of the original, seed requested), same_object (the orders of one object changed between calls, also to another length), mix (random walk over three slots, three numbers, two lengths, three argument sets), each interleaved with calls using another interface set. Every call is judged alone: its result must be what the statement (and the model, a function) gives for that call's arguments. A failing call is reported with its call sequence, cut down by delta debugging to a minimal sequence that fails when run from a pristine interpreter state (one helper process, one fork per trial), and the replay re-runs exactly that sequence. PATH OBJECTS HANDED TO THE IMPLEMENTATION -- history family: path_number in 0..7, None, 137 or 100000; generated in {None, 'ld', 'ct', ('sh', 2.0, 1, len), ('wf', 2.0, 3, len), ('s+', 0, 0, 0), ('00', 1.0, 0, 0)}; maxlen in {len, len+1, 10000, 100000, None}; status in {'', 'ACC', 'BTL', 'FTL'}; time_origin 0 or a random integer < 1000; weights None, (1.0, 0.0) or (2.0, 1.0, 0.0); weight 0.0, 1.0 or 4.0; one System object per frame with order = [float] and config = (name, index), every other System attribute at its default; copies and reversed paths are made by Path.copy / Path.reverse themselves. All other families: Path(maxlen=10000) (pick_length_limits: len, len+1, 100000, None) with path_number None, generated None, status '', time_origin 0, weights None, weight 0.0, System objects shared between paths, and in the exhaustive families ONE path object whose phasepoints list is replaced from case to case. Any answer of the implementation (exception, None, wrong shape, a sub-path that is not a valid one, frames that are not the path's) is judged by the oracle and reported with the input (path, left/right, random number; in the history family the call sequence); it never stops the check.",
+    "note": "All theorems print 'Closed under the global context' (no axioms). Trusted: Coq kernel; extraction (ExtrOcamlBasic) + ocaml/util.ml + ocaml/c10_driver.ml (the 'has' command composes four compute_weight calls in the driver); the Python harness, its generators and its brute-force oracle. Floats: exhaustive cases use integer-valued orders; random real-valued cases are passed to the model as exact dyadic rationals scaled to integers; the float quotient sum_frames/n_frames (and c1n*c2n/(c1o*c2o)) is compared with the model's exact rational only at float neighbours of a boundary or at exactly representable boundaries, other exact-boundary values are counted as float_boundary_skipped. The uniform law of rgen.random() is assumed (the theorem gives the interval, hence probability len_k/n). Sub-path extraction assumes len(path) <= path.maxlen (Path.append refuses beyond maxlen, so no path built by the program is longer than its own maxlen); tis_set.maxlength is NOT assumed to bound anything (a loaded path, or a restart with a lowered maxlength, has sub-paths longer than it). Random numbers outside [0,1) (1.0, 1.5, the float above 1) are only compared with the model (its interval law is proved for every u): an exception of the implementation there is a correspondence report without failing input, inside [0,1) it is a failure of the statement with the input. History family: oracle and model are functions of one call's arguments, so a dependence of a result on earlier calls, on path_number / generated / status / time_origin / weights / weight or on the identity of the path object shows as a failure of that call; the family runs first, so the calls made before a failing call are exactly the recorded sequences. Not covered: state carried from one interpreter process to the next (files), attributes of System other than order[0] and config (pos, vel, vel_rev, ekin, vpot, box stay at their defaults), high_acc_swap (single calls only). The single-call families still hand over un-numbered paths; a failure there is replayed as one call in a fresh interpreter. Reports: at most 3 per kind of case, concrete failing inputs first, single-call inputs before call sequences.",
     "design_ref": "4/C10",
 }
 LEVEL = "proof"
@@ -286,6 +296,7 @@ class Batch:
         self.oracle_fail = 0
         self.samples = {}
         self.fail_by_op = {}
+        self.histories = []          # family "history": the call sequences run so far, in order
 
     def add(self, req, impl_out, err, desc, cmp=None, nontrivial=True):
         self.reqs.append(req)
@@ -308,6 +319,9 @@ class Batch:
                 # is not crowded out by an earlier one), 15 in all
                 k = self.fail_by_op[desc["op"]] = self.fail_by_op.get(desc["op"], 0) + 1
                 if k <= 3 and sum(min(v, 3) for v in self.fail_by_op.values()) <= 15:
+                    if desc["op"] == "history":
+                        # the failing input is the call SEQUENCE: cut down and confirmed in a fresh interpreter
+                        err, desc = history_report(self.histories, desc, err, desc.get("handed"))
                     self.ctx.violation(f"C10 statement fails on the implementation: {err}",
                                        {"case": desc, "impl": io, "model": mo, "request": req}, True)
                 continue
@@ -315,6 +329,8 @@ class Batch:
             if bad:
                 self.disagree += 1
                 if self.disagree <= 3:
+                    if desc["op"] == "history":
+                        desc = history_case(self.histories, desc, False)[0]
                     self.ctx.violation(
                         f"correspondence model/implementation broken for {desc['op']}: {bad} (the property oracle does not reject the implementation's output on this case)",
                         {"correspondence": "c10 runner vs infretis.core.tis", "case": desc, "impl": io, "model": mo, "request": req}, False)
@@ -339,8 +355,9 @@ def cmp_wf(mo, io):
 # ----------------------------------------------------------------------------- case builders
 
 
-def wf_case(B, I, p, orders, left, right, ints=None, tag="wf"):
-    """weight of one path: implementation vs model/spec, plus the statement's oracle."""
+def wf_case(B, I, p, orders, left, right, ints=None, tag="wf", reversal=True):
+    """weight of one path: implementation vs model/spec, plus the statement's oracle.
+    reversal=False: exactly one call of the implementation (history family)."""
     original = p.phasepoints
     w, pp, _seg, prob = I.weight(p, left, right)
     osegs = oracle_segments(orders, left, right)
@@ -356,7 +373,7 @@ def wf_case(B, I, p, orders, left, right, ints=None, tag="wf"):
         err = "weight positive without / zero despite a frame on a valid sub-path"
     elif len(pp) != 0:
         err = "a segment was returned although none was requested"
-    else:
+    elif reversal:
         p.phasepoints = list(original)[::-1]
         wr, _pp, _s, prob_r = I.weight(p, left, right)
         if prob_r:
@@ -526,8 +543,10 @@ def full_ens(left, right, tis_maxlength):
 NOLIMITS = object()
 
 
-def pick_case(B, I, orders, left, right, u, ints=None, tag="pick", tis_maxlength=NOLIMITS, path_maxlen=10000):
-    """tis_maxlength given (family 'length limits'): the implementation gets a full ensemble dictionary
+def pick_case(B, I, orders, left, right, u, ints=None, tag="pick", tis_maxlength=NOLIMITS, path_maxlen=10000, p=None):
+    """p given (history family): the call is made on that path object (path_maxlen must be its maxlen),
+    otherwise a fresh path is built from the orders.
+    tis_maxlength given (family 'length limits'): the implementation gets a full ensemble dictionary
     whose tis_set.maxlength is that value and a path whose own maxlen is path_maxlen (None = no limit);
     the model (command pickm) gets path.maxlen, the only limit the code reads."""
     limits = tis_maxlength is not NOLIMITS
@@ -535,7 +554,8 @@ def pick_case(B, I, orders, left, right, u, ints=None, tag="pick", tis_maxlength
     if osegs and float_decision_differs(osegs, u):
         B.ctx.dist("float_boundary_skipped")
         return
-    p = I.path(orders, unique=True, cache=(ints is None), maxlen=path_maxlen)
+    if p is None:
+        p = I.path(orders, unique=True, cache=(ints is None), maxlen=path_maxlen)
     w, ii, seed_orders, seg, prob = I.pick(p, left, right, u, ens=(full_ens(left, right, tis_maxlength) if limits else None))
     fu = Fraction(*float(u).as_integer_ratio())
     k = oracle_pick(osegs, fu)                       # what the statement's interval law selects
@@ -750,6 +770,492 @@ def has_rands(ws, rng, ctx):
     return sorted({x for x in out if 0.0 <= x})
 
 
+# ----------------------------------------------------------------------------- history family
+# The three functions are functions of the path's orders and the interfaces (and the one random
+# number).  Family "history": SEQUENCES of calls in ONE interpreter process on path objects that
+# carry a path number (and randomised generated / maxlen / status / time_origin / weights /
+# weight): different paths with equal numbers and equal lengths, copies edited in place
+# (Path.copy keeps the number), reversed paths given the number of the original, the same path
+# object after its orders were changed, a second set of paths numbered like the first one ("a
+# second simulation set up in the same process"), interleaved with different interface sets.
+# Oracle: every call's result is what the statement gives for THAT call's arguments alone (and
+# what the model, a function, gives for them).  A step is a JSON-able dictionary; a failing call
+# is reported with the sequence of steps that leads to it, cut down to a minimal sequence that
+# fails when executed in a fresh interpreter (so that the replay file reproduces it).
+
+HIST_ATTRS = ("path_number", "generated", "maxlen", "status", "time_origin", "weights", "weight")
+
+
+class _NoCtx:
+    def dist(self, *a, **k):
+        pass
+
+
+class Sink:
+    """Collects what a case builder hands to the Batch."""
+
+    def __init__(self):
+        self.items = []
+        self.ctx = _NoCtx()
+
+    def add(self, req, io, err, desc, cmp=None, nontrivial=True):
+        self.items.append((req, io, err, desc, cmp, nontrivial))
+
+
+def _tuples(x):
+    return tuple(_tuples(y) for y in x) if isinstance(x, (list, tuple)) else x
+
+
+def handed(p):
+    """the attributes of the path object the implementation is handed"""
+    return {a: getattr(p, a, "<missing>") for a in HIST_ATTRS}
+
+
+class History:
+    """Executes steps on real Path objects kept in named slots: first the path action of the step
+    (new / copy_edit / reverse / edit / same), then exactly ONE call of the implementation, judged by
+    the existing case builders (statement oracle + model request) on the orders the path carries now."""
+
+    def __init__(self, I):
+        self.I = I
+        self.slots = {}       # name -> Path object
+        self.orders = {}      # name -> orders its frames carry now (bookkeeping of the harness)
+
+    def _frames(self, slot, orders):
+        out = []
+        for k, o in enumerate(orders):
+            s = self.I.System()
+            s.order = [float(o)]
+            s.config = (f"{slot}-{k}.xyz", k)
+            out.append(s)
+        return out
+
+    @staticmethod
+    def _set(p, attrs):
+        for a, v in (attrs or {}).items():
+            if a not in HIST_ATTRS:
+                raise KeyError(a)
+            setattr(p, a, _tuples(v))
+
+    def prepare(self, st):
+        how, slot = st["how"], st["slot"]
+        if how == "new":
+            p = self.I.Path(maxlen=(st.get("attrs") or {}).get("maxlen", 10000))
+            orders = tuple(st["orders"])
+            p.phasepoints = self._frames(slot, orders)
+        elif how == "copy_edit":                       # Path.copy keeps number, status, generated, maxlen, weights
+            p = self.slots[st["from"]].copy()
+            orders = tuple(st["orders"])
+            if len(orders) != len(p.phasepoints):
+                raise KeyError("copy_edit keeps the length")
+            for pp, o in zip(p.phasepoints, orders):
+                pp.order = [float(o)]                  # System.copy is shallow: assign, never mutate the shared list
+        elif how == "reverse":                         # Path.reverse: new path, frames copied in reverse order
+            p = self.slots[st["from"]].reverse(None)
+            orders = tuple(reversed(self.orders[st["from"]]))
+        elif how == "edit":                            # the SAME path object, other orders
+            p = self.slots[slot]
+            orders = tuple(st["orders"])
+            if len(orders) == len(p.phasepoints):
+                for pp, o in zip(p.phasepoints, orders):
+                    pp.order = [float(o)]
+            else:
+                p.phasepoints = self._frames(slot, orders)
+        elif how == "same":
+            p, orders = self.slots[slot], self.orders[slot]
+        else:
+            raise KeyError(how)
+        self._set(p, st.get("attrs"))
+        self.slots[slot], self.orders[slot] = p, orders
+        return p, orders
+
+    def step(self, st):
+        """-> (request line, implementation's canonical answer, oracle failure or None, cmp, nontrivial,
+        attributes of the path object handed over)"""
+        p, orders = self.prepare(st)
+        c, S, I = st["call"], Sink(), self.I
+        at = handed(p)
+        fn = c["fn"]
+        if fn == "wf":
+            wf_case(S, I, p, orders, c["left"], c["right"], reversal=False)
+        elif fn == "pick":
+            pick_case(S, I, orders, c["left"], c["right"], c["u"], tis_maxlength=c["tis_maxlength"], path_maxlen=p.maxlen, p=p)
+        elif fn == "cw":
+            cw_case(S, I, p, orders, tuple(c["interfaces"]), c["move"])
+        elif fn == "cv":
+            cv_case(S, I, p, orders, tuple(c["interfaces"]), list(c["moves"]), c["lambda_minus_one"], c["cap"], c["minus"])
+        else:
+            raise KeyError(fn)
+        if not S.items:
+            raise KeyError("random number within rounding error of a boundary")      # the generator never emits one
+        req, io, err, _d, cmp, nontrivial = S.items[0]
+        return req, io, err, cmp, nontrivial, at
+
+
+def _lst(x):
+    return "[" + ",".join(str(v) for v in x) + "]"
+
+
+def step_str(st):
+    how, slot = st["how"], st["slot"]
+    num = (st.get("attrs") or {}).get("path_number", "")
+    num = f"#{num}" if "path_number" in (st.get("attrs") or {}) else ""
+    if how == "new":
+        d = f"{slot}=Path{num}{_lst(st['orders'])}; "
+    elif how == "copy_edit":
+        d = f"{slot}={st['from']}.copy(){num}, orders set to {_lst(st['orders'])}; "
+    elif how == "reverse":
+        d = f"{slot}={st['from']}.reverse(){num}; "
+    elif how == "edit":
+        d = f"orders of {slot} set to {_lst(st['orders'])}; "
+    else:
+        d = ""
+    c = st["call"]
+    if c["fn"] == "wf":
+        return d + f"wirefence_weight_and_pick({slot},{c['left']},{c['right']})"
+    if c["fn"] == "pick":
+        return d + f"wirefence_weight_and_pick({slot},{c['left']},{c['right']},return_seg,u={c['u']!r})"
+    if c["fn"] == "cw":
+        return d + f"compute_weight({slot},{_lst(c['interfaces'])},{c['move']})"
+    lm1 = c["lambda_minus_one"]
+    return d + (f"calc_cv_vector({slot},{_lst(c['interfaces'])},{_lst(c['moves'])}"
+                + ("" if lm1 is False else f",lambda_minus_one={lm1}") + ("" if c["cap"] is None else f",cap={c['cap']}")
+                + (",minus" if c["minus"] else "") + ")")
+
+
+# ---- generators
+
+HIST_PAIRS = [(1, 3), (1, 3), (1, 4), (2, 3), (1, 2), (0, 3), (2, 2), (3, 1)]
+HIST_TRIPS = [(0, 1, 3), (0, 1, 3), (1, 2, 3), (0, 2, 4), (1, 1, 3), (0, 1, 4), (0, 0, 3)]
+HIST_INTFS = [(1, 3), (0, 1, 3), (1, 2, 3), (0, 1, 2, 3), (1, 2, 3, 4), (0, 1, 2, 3, 4)]
+MOVES = ("sh", "wf", "ss")
+
+
+def hist_orders(rng, L):
+    if L == 0:
+        return ()
+    if rng.random() < 0.4:
+        return tuple(rng.choice(ALPHA) for _ in range(L))
+    seq = [rng.choice((0, 0, 3, 4))]                                   # outside frame, run of inside frames, outside frame ...
+    while len(seq) < L:
+        seq += [rng.choice((1, 2, 2)) for _ in range(rng.randrange(1, 5))]
+        seq.append(rng.choice((0, 0, 3, 4)))
+    return tuple(seq[:L])
+
+
+def hist_attrs(rng, L, number):
+    """Randomised attributes of a path object (the functions must not depend on any of them, except
+    that a seed sub-path is created with the path's maxlen)."""
+    return {"path_number": number,
+            "generated": rng.choice((None, "ld", "ct", ("sh", 2.0, 1, L), ("wf", 2.0, 3, L), ("s+", 0, 0, 0), ("00", 1.0, 0, 0))),
+            "maxlen": rng.choice((L, L + 1, 10000, 100000, None)),
+            "status": rng.choice(("", "ACC", "ACC", "BTL", "FTL")),
+            "time_origin": rng.choice((0, 0, rng.randrange(1000))),
+            "weights": rng.choice((None, (1.0, 0.0), (2.0, 1.0, 0.0))),
+            "weight": rng.choice((0.0, 1.0, 4.0))}
+
+
+def hist_template(rng, fn=None):
+    """The fixed arguments of a call (everything but the path and the random number)."""
+    fn = fn or rng.choice(("wf", "pick", "cw", "cw", "cv", "cv"))
+    if fn in ("wf", "pick"):
+        left, right = rng.choice(HIST_PAIRS)
+        return {"fn": fn, "left": left, "right": right}
+    if fn == "cw":
+        return {"fn": "cw", "interfaces": list(rng.choice(HIST_TRIPS)), "move": rng.choice(("wf", "wf", "wf", "ss", "sh"))}
+    intfs = rng.choice(HIST_INTFS)
+    n = len(intfs)
+    moves = [rng.choice(MOVES)] + [rng.choice(("wf", "wf", "sh", "ss")) for _ in range(n - 1)] + [rng.choice(MOVES) for _ in range(rng.choice((1, 1, 2, 4)))]
+    return {"fn": "cv", "interfaces": list(intfs), "moves": moves, "lambda_minus_one": rng.choice((False, False, False, 0, 2)),
+            "cap": rng.choice((None, None, 2, 3, 4)), "minus": rng.random() < 0.12}
+
+
+def hist_call(rng, tmpl, orders):
+    """A call from a template; the random number of a pick is drawn for the path at hand."""
+    c = dict(tmpl)
+    if c["fn"] == "pick":
+        osegs = oracle_segments(tuple(orders), c["left"], c["right"])
+        us = [x for x in (interval_midpoints(osegs) if osegs else []) + [rng.getrandbits(10) / 1024.0, 0.5]
+              if not (osegs and float_decision_differs(osegs, x))]
+        c["u"] = rng.choice(us) if us else 0.0
+        c["tis_maxlength"] = rng.choice((1, 3, max(1, len(orders)), 2000))
+    return c
+
+
+def gen_history(rng):
+    """One call sequence (list of steps) of one of the scenario kinds."""
+    kind = rng.choice(("two_setups", "two_setups", "copy_edit", "reverse", "same_object", "mix", "mix"))
+    pool = rng.sample(range(8), 3)
+    if rng.random() < 0.15:
+        pool[rng.randrange(3)] = rng.choice((None, 137, 100000))
+    steps = []
+
+    def new(slot, number, orders):
+        return {"slot": slot, "how": "new", "orders": list(orders), "attrs": hist_attrs(rng, len(orders), number)}
+
+    def other(tmpls):                                                   # now and then a call with another interface set in between
+        return rng.choice(tmpls) if rng.random() < 0.25 else tmpls[0]
+
+    if kind == "two_setups":
+        # paths numbered 0..k-1 are weighted (REPEX_state.load_paths: calc_cv_vector with one interface / move
+        # list for every path), then a second set with the same numbers and lengths
+        k = rng.randrange(1, 4)
+        Ls = [rng.randrange(3, 11) for _ in range(k)]
+        tmpls = [hist_template(rng, rng.choice(("cv", "cv", "cw", "wf", "pick"))), hist_template(rng)]
+        base = rng.choice((0, 0, 1, 5))
+        for run in range(rng.choice((2, 2, 3))):
+            for i, L in enumerate(Ls):
+                o = hist_orders(rng, L)
+                st = new(f"{'abc'[run]}{i}" if rng.random() < 0.5 else f"a{i}", base + i, o)
+                st["call"] = hist_call(rng, other(tmpls), o)
+                steps.append(st)
+    elif kind == "copy_edit":
+        L = rng.randrange(3, 11)
+        tmpls = [hist_template(rng), hist_template(rng)]
+        o = hist_orders(rng, L)
+        st = new("a", pool[0], o)
+        st["call"] = hist_call(rng, tmpls[0], o)
+        steps.append(st)
+        src = "a"
+        for slot in ("b", "c")[:rng.randrange(1, 3)]:
+            o2 = hist_orders(rng, L)
+            steps.append({"slot": slot, "how": "copy_edit", "from": src, "orders": list(o2), "call": hist_call(rng, other(tmpls), o2)})
+            if rng.random() < 0.5:                                      # the original is still what it was
+                steps.append({"slot": "a", "how": "same", "call": hist_call(rng, tmpls[0], o)})
+            src = rng.choice(("a", slot))
+    elif kind == "reverse":
+        L = rng.randrange(3, 12)
+        tmpls = [hist_template(rng, rng.choice(("pick", "pick", "wf", "cw", "cv"))), hist_template(rng)]
+        o = hist_orders(rng, L)
+        st = new("a", pool[0], o)
+        st["call"] = hist_call(rng, tmpls[0], o)
+        steps.append(st)
+        r = tuple(reversed(o))
+        keep = {"path_number": pool[0]}
+        if rng.random() < 0.5:
+            keep.update(status=st["attrs"]["status"], generated=st["attrs"]["generated"], time_origin=st["attrs"]["time_origin"])
+        steps.append({"slot": "r", "how": "reverse", "from": "a", "attrs": keep, "call": hist_call(rng, other(tmpls), r)})
+        if rng.random() < 0.5:
+            steps.append({"slot": "a", "how": "same", "call": hist_call(rng, tmpls[0], o)})
+        if rng.random() < 0.3:
+            steps.append({"slot": "rr", "how": "reverse", "from": "r", "attrs": {"path_number": pool[0]}, "call": hist_call(rng, tmpls[0], o)})
+    elif kind == "same_object":
+        L = rng.randrange(3, 11)
+        tmpls = [hist_template(rng), hist_template(rng)]
+        o = hist_orders(rng, L)
+        st = new("a", pool[0], o)
+        st["call"] = hist_call(rng, tmpls[0], o)
+        steps.append(st)
+        for _ in range(rng.randrange(1, 4)):
+            o = hist_orders(rng, L if rng.random() < 0.8 else rng.randrange(0, L))
+            steps.append({"slot": "a", "how": "edit", "orders": list(o), "call": hist_call(rng, other(tmpls), o)})
+    else:
+        # random walk over three slots, three numbers, two lengths, three argument sets
+        Ls = [rng.randrange(3, 10), rng.randrange(0, 12)]
+        tmpls = [hist_template(rng) for _ in range(3)]
+        cur = {}
+        for _ in range(rng.randrange(4, 11)):
+            slot = rng.choice("abc")
+            hows = ["new", "new"]
+            if cur:
+                hows += ["copy_edit", "reverse"]
+            if slot in cur:
+                hows += ["edit", "same"]
+            how = rng.choice(hows)
+            if how == "new":
+                o = hist_orders(rng, rng.choice(Ls))
+                st = new(slot, rng.choice(pool), o)
+            elif how == "copy_edit":
+                src = rng.choice(sorted(cur))
+                o = hist_orders(rng, len(cur[src]))
+                st = {"slot": slot, "how": "copy_edit", "from": src, "orders": list(o)}
+            elif how == "reverse":
+                src = rng.choice(sorted(cur))
+                o = tuple(reversed(cur[src]))
+                st = {"slot": slot, "how": "reverse", "from": src, "attrs": {"path_number": rng.choice(pool)}}
+            elif how == "edit":
+                o = hist_orders(rng, len(cur[slot]))
+                st = {"slot": slot, "how": "edit", "orders": list(o)}
+            else:
+                o = cur[slot]
+                st = {"slot": slot, "how": "same"}
+            cur[slot] = tuple(o)
+            st["call"] = hist_call(rng, rng.choice(tmpls), o)
+            steps.append(st)
+    return kind, steps
+
+
+def exhaustive_pair_histories(seqs, number_of):
+    """All ORDERED pairs (A, B) of the given sequences as two-call histories: path A with a number is
+    weighted, then a different path object B with the same number (and the same length) with the same
+    arguments.  The call and the way B comes about rotate with the pair index."""
+    calls = [{"fn": "wf", "left": 1, "right": 3},
+             {"fn": "cw", "interfaces": [0, 1, 3], "move": "wf"},
+             {"fn": "cv", "interfaces": [0, 1, 3], "moves": ["sh", "sh", "wf", "wf"], "lambda_minus_one": False, "cap": None, "minus": False},
+             {"fn": "pick", "left": 1, "right": 3, "u": 0.5, "tis_maxlength": 2000}]
+    def with_u(c, seq):
+        if c["fn"] != "pick":
+            return c
+        osegs = oracle_segments(seq, 1, 3)
+        return dict(c, u=(0.0 if (osegs and float_decision_differs(osegs, 0.5)) else 0.5))
+
+    k = 0
+    for A in seqs:
+        for B in seqs:
+            if A == B:
+                continue
+            c = calls[k % 4]
+            at = {"path_number": number_of(k), "generated": ("ld", "ct", None)[k % 3], "maxlen": (len(A), 100000, None)[(k // 3) % 3],
+                  "status": "ACC", "time_origin": 0, "weights": None, "weight": 0.0}
+            first = {"slot": "a", "how": "new", "orders": list(A), "attrs": at, "call": with_u(c, A)}
+            how = ("new", "copy_edit", "edit")[(k // 4) % 3]
+            if how == "new":
+                second = {"slot": "b", "how": "new", "orders": list(B), "attrs": dict(at), "call": with_u(c, B)}
+            elif how == "copy_edit":
+                second = {"slot": "b", "how": "copy_edit", "from": "a", "orders": list(B), "call": with_u(c, B)}
+            else:
+                second = {"slot": "a", "how": "edit", "orders": list(B), "call": with_u(c, B)}
+            k += 1
+            yield [first, second]
+
+
+# ---- fresh-interpreter evaluation and minimisation of a failing call sequence
+
+HELPER_MARK = "C10-HISTORY-HELPER "
+
+
+def _run_sequence(I, steps):
+    """oracle verdict on the LAST step after running all steps; 'invalid' if the sequence cannot be executed"""
+    H = History(I)
+    res = None
+    try:
+        for st in steps:
+            res = H.step(st)
+    except (KeyError, IndexError, TypeError, AttributeError) as e:
+        return {"invalid": repr(e)}
+    if res is None:
+        return {"invalid": "empty"}
+    return {"err": res[2], "impl": res[1], "request": res[0]}
+
+
+def _forked(I, steps):
+    """run the sequence in a forked child: the state of this process (package imported, no call made) stays pristine"""
+    import json
+    import os
+    r, w = os.pipe()
+    pid = os.fork()
+    if pid == 0:
+        code = 0
+        try:
+            os.close(r)
+            out = json.dumps(_run_sequence(I, steps)).encode()
+            with os.fdopen(w, "wb") as f:
+                f.write(out)
+        except BaseException:  # noqa: BLE001
+            code = 1
+        os._exit(code)
+    os.close(w)
+    with os.fdopen(r, "rb") as f:
+        data = f.read()
+    os.waitpid(pid, 0)
+    try:
+        return json.loads(data.decode())
+    except ValueError:
+        return {"invalid": "child died"}
+
+
+def _helper():
+    """Entry point of the helper process (python -c ...): candidate sequences in on stdin; the first one whose
+    last call fails when run from a pristine interpreter state is cut down (delta debugging over the earlier
+    steps: drop chunks, halving the chunk size down to single steps; a trial that cannot be executed because
+    a slot it refers to is gone counts as not failing) and printed."""
+    import json
+    import sys
+    import time
+    cands = json.load(sys.stdin)
+    deadline = time.time() + 90
+    I = Impl()
+    out = {"confirmed": False}
+    for ci, steps in enumerate(cands):
+        res = _forked(I, steps)
+        if not res.get("err"):
+            continue
+        chunk = max(1, (len(steps) - 1) // 2)
+        while len(steps) > 1 and time.time() < deadline:
+            i, removed = 0, False
+            while i < len(steps) - 1 and time.time() < deadline:
+                trial = steps[:i] + steps[min(i + chunk, len(steps) - 1):]
+                r2 = _forked(I, trial)
+                if r2.get("err"):
+                    steps, res, removed = trial, r2, True
+                else:
+                    i += chunk
+            if chunk > 1:
+                chunk //= 2
+            elif not removed:           # single steps, a whole pass without a removal: 1-minimal
+                break
+        out = {"confirmed": True, "candidate": ci, "steps": steps, "err": res["err"], "impl": res["impl"], "request": res["request"]}
+        break
+    sys.stdout.write("\n" + HELPER_MARK + json.dumps(out) + "\n")
+
+
+def fresh_minimise(cands, timeout=240):
+    """-> dict of the helper, or {'confirmed': None, 'why': ...} if the helper could not be run"""
+    import json
+    import os
+    import subprocess
+    import sys
+    try:
+        p = subprocess.run([sys.executable, "-W", "ignore", "-c", "import importlib.util; import checks.c10 as m; m._helper()"],
+                           input=json.dumps(cands), capture_output=True, text=True, timeout=timeout, env=dict(os.environ))
+        for line in p.stdout.split("\n"):
+            if line.startswith(HELPER_MARK):
+                return json.loads(line[len(HELPER_MARK):])
+        return {"confirmed": None, "why": f"helper rc={p.returncode}: {p.stderr[-300:]}"}
+    except Exception as e:  # noqa: BLE001
+        return {"confirmed": None, "why": repr(e)}
+
+
+def history_case(histories, desc, minimise):
+    """The replayable case of a history call: the steps of its own sequence up to the call; with minimise, the
+    shortest sequence found that makes the call fail in a fresh interpreter (own prefix, else preceded by the
+    1, 4, 16 ... sequences run before it, else by everything run before it)."""
+    h, j = desc["history"], desc["call"]
+    own = histories[h][:j + 1]
+    case = {"op": "history", "kind": desc.get("kind"), "steps": own, "failing_call": j,
+            "position_in_run": {"sequence": h, "call": j, "calls_made_before_in_the_interpreter": sum(len(x) for x in histories[:h]) + j}}
+    info = None
+    if minimise:
+        cands, k = [own], 1
+        while k < h:
+            cands.append([st for x in histories[h - k:h] for st in x] + own)
+            k *= 4
+        if h:
+            cands.append([st for x in histories[:h] for st in x] + own)
+        info = fresh_minimise(cands)
+        if info.get("confirmed"):
+            case["steps"], case["failing_call"] = info["steps"], len(info["steps"]) - 1
+            case["confirmed_in_a_fresh_interpreter"] = True
+        else:
+            case["confirmed_in_a_fresh_interpreter"] = False
+            case["note"] = ("the call did not fail when its sequence (nor the sequences before it) was re-run in a fresh interpreter"
+                            if info.get("confirmed") is False else f"fresh-interpreter run unavailable: {info.get('why')}")
+    return case, info
+
+
+def history_report(histories, desc, err, handed_attrs):
+    case, info = history_case(histories, desc, True)
+    steps = case["steps"]
+    if info and info.get("confirmed"):
+        err = info["err"]
+    seq = "; ".join(f"({i + 1}) {step_str(st)}" for i, st in enumerate(steps))
+    msg = (f"calls in one interpreter: {seq} -- call {len(steps)} fails: {err}; every call's result must be that of its own arguments alone"
+           + (" (fails as the first call of an interpreter)" if len(steps) == 1 else "")
+           + f" [path attributes handed over in the failing call: {handed_attrs}]"
+           + ("" if case.get("confirmed_in_a_fresh_interpreter") else f" [{case.get('note')}]"))
+    return msg, case
+
+
 # ----------------------------------------------------------------------------- run
 
 
@@ -762,6 +1268,48 @@ def run(ctx):
     B = Batch(ctx, runner)
     rng = ctx.rng
     quick = ctx.tier == "quick"
+
+    # ---------------- 0. history: sequences of calls on numbered paths in this ONE interpreter.  Runs first:
+    # nothing has called the implementation yet, so the calls made before a failing call are exactly the
+    # sequences recorded in B.histories (what a replay in a fresh interpreter needs).
+    hrng = random.Random(ctx.seed * 7919 + 1010)
+    hist_seen = {}                    # (number, length, arguments) -> orders of the last path weighted under that key
+    nh_calls = nh_collide = 0
+
+    def run_history(kind, steps):
+        nonlocal nh_calls, nh_collide
+        h = len(B.histories)
+        B.histories.append(steps)
+        Hx = History(I)
+        for j, st in enumerate(steps):
+            req, io, err, cmp, nontrivial, at = Hx.step(st)
+            c = st["call"]
+            key = (at["path_number"], len(Hx.orders[st["slot"]]), json.dumps({k: v for k, v in c.items() if k != "u"}, sort_keys=True))
+            prev = hist_seen.get(key)
+            if prev is not None and prev != Hx.orders[st["slot"]] and at["path_number"] is not None:
+                nh_collide += 1
+            hist_seen[key] = Hx.orders[st["slot"]]
+            nh_calls += 1
+            ctx.dist(f"history_call_{c['fn']}")
+            ctx.dist(f"history_path_{st['how']}")
+            ctx.dist("history_path_number_" + ("none" if at["path_number"] is None else "set"))
+            ctx.dist(f"history_path_maxlen_{'none' if at['maxlen'] is None else ('len' if at['maxlen'] == len(Hx.orders[st['slot']]) else ('len+1' if at['maxlen'] == len(Hx.orders[st['slot']]) + 1 else at['maxlen']))}")
+            B.add(req, io, err, {"op": "history", "fn": c["fn"], "kind": kind, "history": h, "call": j, "handed": at}, cmp, nontrivial=nontrivial)
+        ctx.dist(f"history_kind_{kind}")
+
+    # exhaustive small scope: all ordered pairs of different sequences of one length, same number, same arguments
+    pair_seqs = list(itertools.product(ALPHA, repeat=3)) if quick else list(itertools.product(ALPHA, repeat=3)) + list(itertools.product((0, 2, 4), repeat=5))
+    for L in sorted({len(x) for x in pair_seqs}):
+        for steps in exhaustive_pair_histories([x for x in pair_seqs if len(x) == L], lambda k: k % 6):
+            run_history("exhaustive_pairs", steps)
+    nh_random = 2500 if quick else 25000
+    for _ in range(nh_random):
+        kind, steps = gen_history(hrng)
+        run_history(kind, steps)
+    ctx.dist("history_sequences", len(B.histories))
+    ctx.dist("history_calls", nh_calls)
+    ctx.dist("history_calls_same_number_length_arguments_as_an_earlier_call_but_other_orders", nh_collide)
+    B.flush()
 
     # ---------------- 1. weights: ALL sequences over the alphabet, several (left, right)
     main_pairs = [(1, 3), (2, 2), (3, 1)]           # canonical / left = right / left > right
@@ -1004,9 +1552,13 @@ def run(ctx):
     def _rank(v):
         case = v[1].get("case", {}) if isinstance(v[1], dict) else {}
         u = case.get("u", 0.0) if isinstance(case, dict) else 0.0
-        return (not v[2], not (0.0 <= u < 1.0))
+        return (not v[2], isinstance(case, dict) and case.get("op") == "history", not (0.0 <= u < 1.0))
     ctx.violations.sort(key=_rank)
     ctx.cov["rule"] = (
+        f"history (call sequences in one interpreter on numbered paths, every call judged alone): {len(B.histories)} sequences, {nh_calls} calls = all ordered pairs "
+        f"of different order sequences of length {sorted({len(x) for x in pair_seqs})} (same number, length and arguments; second path new / copy edited / same object) "
+        f"+ {nh_random} seeded sequences (two_setups, copy_edit, reverse, same_object, mix); {nh_collide} calls share number, length and arguments with an earlier call on "
+        f"other orders; then single calls -- "
         f"exhaustive: all order sequences over alphabet {ALPHA} up to length {Lmain[(1, 3)]} for (left,right) in {main_pairs[:1]}, "
         f"up to {Lmain[(2, 2)]} for {main_pairs[1:]} (left = right, left > right), up to {Lextra} for {extra_pairs} "
         f"(weight vs model/spec/brute-force declarative oracle, reversal, positivity); segment choice on all sequences up to length {Lpick} "
@@ -1027,13 +1579,14 @@ def run(ctx):
                                  "float_boundary_skipped": ctx.cov["input_distribution"].get("float_boundary_skipped", 0)}
     ctx.cov["trusted_base"] += [
         "extraction: ExtrOcamlBasic only; ocaml/util.ml + ocaml/c10_driver.ml (the 'has' command composes four compute_weight calls)",
-        "py/checks/c10.py generators, encoders (dyadic floats scaled to integers) and the brute-force oracle",
+        "py/checks/c10.py generators, encoders (dyadic floats scaled to integers), the brute-force oracle and the history executor (slots of real Path objects, Path.copy / Path.reverse of /repo)",
         "float quotients sum_frames/n_frames and c1n*c2n/(c1o*c2o) agree with the exact rational away from a boundary (exact boundaries that are not representable are skipped and counted)",
     ]
     ctx.assumptions += [
         "rgen.random() is uniform on [0,1): the theorem gives the selecting interval, hence probability len_k/n",
         "len(path) <= path.maxlen (or path.maxlen None) when a seed sub-path is cut out (Path.append refuses beyond maxlen); nothing is assumed about tis_set.maxlength",
         "System reduced to order[0]; moves restricted to 'sh', 'wf', 'ss'",
+        "hidden state is looked for within one interpreter process (history family); nothing is said about state kept in files between processes",
     ]
 
 
@@ -1050,20 +1603,10 @@ def replay(doc):
         return 1
     I = Impl()
 
-    class FakeCtx:
-        def dist(self, *a, **k):
-            pass
-
-    class Sink:
-        def __init__(self):
-            self.items = []
-            self.ctx = FakeCtx()
-
-        def add(self, req, io, err, desc, cmp=None, nontrivial=True):
-            self.items.append((req, io, err, cmp))
-
     S = Sink()
     op = case["op"]
+    if op == "history":
+        return replay_history(case, I)
     if op.startswith("wf"):
         o = case["orders"]
         ints = scale([case["left"], case["right"]] + o)
@@ -1083,7 +1626,7 @@ def replay(doc):
         vt = minus_path_type(o, lm1, case["interfaces"][0]) if (op == "calc_cv_vector_minus" and case["interfaces"]) else None
         cv_case(S, I, I.path(o), o, tuple(case["interfaces"]), case["moves"], lm1, case["cap"], case["minus"], tag=op, valid_type=vt)
     elif op == "high_acc_swap":
-        has_case(S, I, FakeCtx(), tuple(case["path0"]), tuple(case["path1"]), tuple(case["intf0"]), tuple(case["intf1"]),
+        has_case(S, I, _NoCtx(), tuple(case["path0"]), tuple(case["path1"]), tuple(case["intf0"]), tuple(case["intf1"]),
                  tuple(case["moves"]), case["rand"])
     else:
         print("unknown case kind", op)
@@ -1091,7 +1634,7 @@ def replay(doc):
     if not S.items:
         print("case not evaluated: the random number lies within float rounding error of a non-representable boundary")
         return 0
-    req, io, err, cmp = S.items[0]
+    req, io, err, _desc, cmp, _nt = S.items[0]
     print("request         :", req)
     print("implementation  :", io)
     try:
@@ -1104,3 +1647,36 @@ def replay(doc):
         print(bad)
     print("property oracle :", err or "holds on this input")
     return 1 if (err or bad) else 0
+
+
+def replay_history(case, I):
+    """Re-run the stored call sequence in this (fresh) interpreter: one call of the implementation per step."""
+    steps = case["steps"]
+    H = History(I)
+    rows = []
+    for j, st in enumerate(steps):
+        try:
+            req, io, err, cmp, _nt, at = H.step(st)
+        except (KeyError, IndexError, TypeError, AttributeError) as e:
+            print(f"step {j + 1} cannot be executed: {e!r}")
+            return 1
+        rows.append((st, req, io, err, cmp, at))
+    try:
+        mos = common.Runner("c10").run([r[1] for r in rows])
+    except Exception as e:  # noqa: BLE001
+        print(f"runner unavailable: {e!r}")
+        mos = [None] * len(rows)
+    failed = False
+    for j, ((st, req, io, err, cmp, at), mo) in enumerate(zip(rows, mos)):
+        print(f"--- call {j + 1}: {step_str(st)}")
+        print("path attributes :", at)
+        print("request         :", req)
+        print("implementation  :", io)
+        bad = None
+        if mo is not None:
+            print("model now       :", mo)
+            bad = cmp(mo, io) if cmp else (None if mo == io else "outputs differ")
+            print("correspondence  :", bad or "agree")
+        print("property oracle :", err or "holds on this call")
+        failed = failed or bool(err or bad)
+    return 1 if failed else 0
